@@ -331,6 +331,85 @@ class Ctx:
         self.last_out_path = outp
         return recs, out, rc
 
+    def replay_behaviours(self, binary, test, pkg, behaviours, env=None, name="beh", timeout=900,
+                          nontrivial=None, chunk=None):
+        """Standard phase-G replay.  Harness protocol (mode=replay): for input line i emit
+        {"i":i,"ok":true} or {"i":i,"ok":false,"step":k,"what":"...", ["dev":"Dev_Name"]} and finally
+        {"summary":true,"n":<inputs processed>}.  A record with "dev" is a disagreement that the harness
+        found to be explained exactly by the named as-built deviation (=> KNOWN-FINDING iff listed open).
+        Returns list of disagreement records.  nontrivial: optional predicate(behaviour)->bool."""
+        inp = self.write_ndjson("%s_%s.ndjson" % (name, test), behaviours)
+        recs, out, rc = self.go_run(binary, test, pkg=pkg, infile=inp, env=env, mode="replay", timeout=timeout)
+        summ = [r for r in recs if r.get("summary")]
+        if rc != 0 or not summ or summ[-1].get("n") != len(behaviours):
+            self.save_text("replay_%s_driver.out" % name, out[-20000:])
+            self.broken("replay driver %s/%s died or was incomplete (rc=%s, summary=%s): %s" %
+                        (test, name, rc, summ[-1:] , out[-1500:]))
+            return None
+        bad = [r for r in recs if r.get("ok") is False]
+        for r in bad:
+            beh = behaviours[r["i"]] if isinstance(r.get("i"), int) and r["i"] < len(behaviours) else None
+            what = "%s#%s step %s: %s" % (name, r.get("i"), r.get("step"), r.get("what"))
+            if r.get("dev"):
+                self.deviation(r["dev"], what, dict(behaviour=beh, disagreement=r))
+            else:
+                self.violation(what, dict(behaviour=beh, disagreement=r))
+        self.cov["traces_validated_against_impl"] += len(behaviours)
+        self.cov["evaluations"] += len(behaviours)
+        if nontrivial:
+            for b in behaviours:
+                if nontrivial(b):
+                    self.nontrivial(b)
+        if behaviours:
+            self.sample(behaviours[len(behaviours) // 2])
+        return bad
+
+    def validate_trace(self, spec, module, cfg, recs, name="trace", timeout=600, count_runs=None,
+                       negative=None, extra_files=None):
+        """Standard phase-T: validate recorded events `recs` (list of dicts) with the Trace spec.
+        First with no deviations; if rejected, with the open known-finding deviations enabled.
+        negative: optional function(recs)->(corrupted_recs, expected_reject_index or None) for the
+        binding control.  Returns True if accepted (possibly with deviations)."""
+        if not recs:
+            self.broken("empty trace for %s" % spec)
+            return False
+        tr = self.write_ndjson(name + ".ndjson", recs)
+        res = self.tlc_trace(spec, module, cfg, tr, timeout=timeout, extra_files=extra_files)
+        ok = res["accepted"]
+        if res["timeout"]:
+            self.broken("trace validation %s timed out" % name)
+            return False
+        if not ok and self.open_devs():
+            res2 = self.tlc_trace(spec, module, cfg, tr, timeout=timeout, devs=self.open_devs(), extra_files=extra_files)
+            if res2["accepted"]:
+                used = set(re.findall(r'<<"DEV_USED", "(\w+)">>', res2["out"])) or set(self.open_devs())
+                for k in self.known_findings():
+                    if k.get("status") == "open" and k["deviation"] in used:
+                        self.deviation(k["deviation"], k.get("what", k["deviation"]))
+                ok = True
+            else:
+                res = res2 if res2["hwm"] >= res["hwm"] else res
+        if not ok:
+            h = res["hwm"]
+            bad = recs[h] if h < len(recs) else None
+            self.violation("recorded trace %s rejected by %s at event %d: %s (invariant=%s)" %
+                           (name, module, h + 1, json.dumps(bad)[:400], res["violated"]),
+                           dict(rejected_event_index=h, event=bad, prefix=recs[max(0, h - 15):h + 1]),
+                           name="trace_reject_%s.json" % name)
+        else:
+            self.cov["traces_validated_against_impl"] += (count_runs(recs) if count_runs else 1)
+            self.cov["evaluations"] += len(recs)
+            if negative:
+                bad, idx = negative(recs)
+                if bad is not None:
+                    r3 = self.tlc_trace(spec, module, cfg, self.write_ndjson(name + "_neg.ndjson", bad),
+                                        timeout=timeout, devs=self.open_devs(), extra_files=extra_files)
+                    if r3["accepted"] or (idx is not None and r3["hwm"] != idx):
+                        self.broken("negative control for %s: corrupted trace not rejected where expected "
+                                    "(accepted=%s hwm=%s want=%s) -- the trace spec binds nothing" %
+                                    (name, r3["accepted"], r3["hwm"], idx))
+        return ok
+
     def write_ndjson(self, name, items):
         p = os.path.join(self.work, name)
         with open(p, "w") as f:
@@ -343,6 +422,12 @@ class Ctx:
         if self._kf is None:
             p = os.path.join(VERIF, "known_findings.json")
             self._kf = json.load(open(p)).get("findings", []) if os.path.exists(p) else []
+            ids = {k.get("id") for k in self._kf}
+            import glob
+            for f in sorted(glob.glob(os.path.join(VERIF, "findings", "*.json"))):  # not yet merged
+                k = json.load(open(f))
+                if k.get("id") not in ids:
+                    self._kf.append(k)
         return [k for k in self._kf if k.get("property") == self.pid]
 
     def open_devs(self):
